@@ -131,6 +131,23 @@ def do_case(ctx, inp):
         ctx.fail("from_b64-raised-on-own-to_b64-output", {"exception": f"{type(e).__name__}: {str(e)[:200]}", "polyhedron": full_poly_snap(g)}); return
     if type(g2) is not type(g) or full_poly_snap(g2) != fs:
         ctx.fail("polyhedron-round-trip-differs", {"before": fs, "after": full_poly_snap(g2)}); return
+    # the same polyhedron with a row index of the caller's own (plain integers 0..m-1; row variables numbered 0..m-1 that carry
+    # bounds; names): the index is part of what is packed
+    m_rows = np.asarray(g).shape[0]
+    for kind_, idx_ in (("ints", list(range(m_rows))), ("numbered-row-variables", [puan.variable(i_, (0, 3)) for i_ in range(m_rows)]),
+                        ("named-rows", [puan.variable("row%d" % i_) for i_ in range(m_rows)])):
+        try:
+            gi = pnd.ge_polyhedron_config(np.asarray(g).copy(), default_prio_vector=np.asarray(g.default_prio_vector).copy(),
+                                          variables=list(g.variables), index=idx_)
+            gi2 = pnd.ge_polyhedron_config.from_b64(gi.to_b64())
+        except Exception as e:
+            ctx.fail("polyhedron-with-own-row-index-does-not-round-trip", {"index": kind_, "exception": f"{type(e).__name__}: {str(e)[:160]}"}); return
+        def idx_sig(q):
+            ix = q.index
+            return [type(ix).__name__, str(getattr(ix, "dtype", None)), [var_sig(x) if isinstance(x, puan.variable) else ["plain", repr(x), type(x).__name__] for x in list(ix)]]
+        if idx_sig(gi2) != idx_sig(gi):
+            ctx.fail("row-index-differs-after-round-trip", {"index": kind_, "before": idx_sig(gi)[:2] + [idx_sig(gi)[2][:2]], "after": idx_sig(gi2)[:2] + [idx_sig(gi2)[2][:2]]}); return
+    ctx.tags["polyhedra-with-own-row-index"] += 1
     vs1 = [[var_sig(v) for v in g.variables], [var_sig(v) for v in g.index]]
     vs2 = [[var_sig(v) for v in g2.variables], [var_sig(v) for v in g2.index]]
     if vs1 != vs2:
